@@ -100,6 +100,17 @@ theorem turnTcpRecv_safe (bufLen : Nat) (b : Buf) (n : Nat) :
   unfold turnTcpRecv turnTcpTail readExact
   cur_auto
 
+theorem tcp4571Recv_safe (bufLen : Nat) (b : Buf) (n : Nat) :
+    safe (· ≤ n) (tcp4571Recv bufLen) (fun r _ n' => r ≤ bufLen ∧ n' = n) b n := by
+  unfold tcp4571Recv readExact
+  cur_auto
+
+theorem sharedTcpFirstFrame_safe (b : Buf) :
+    safe (· ≤ 1500) sharedTcpFirstFrame (fun r _ n' => r ≤ 1500 ∧ n' ≤ 1500) b 0 := by
+  unfold sharedTcpFirstFrame readExact
+  simp only [c07MaxStunMessage_val]
+  cur_auto
+
 theorem unwrapRtx_safe (payload : Array UInt8) (b : Buf) (n : Nat) :
     safe (· ≤ n) (unwrapRtx payload) (fun _ _ n' => n' = n) b n := by
   unfold unwrapRtx
